@@ -180,6 +180,11 @@ func buildOverlay(work, pkg, cfg, instr string) (string, error) {
 	if len(files) == 0 {
 		return "", fmt.Errorf("no harness files in %s", hdir)
 	}
+	// the package's own test files are masked: the harness must not depend on (or clash with) them
+	own, _ := filepath.Glob(filepath.Join(repoDir, pkg, "*_test.go"))
+	for _, f := range own {
+		repl[f] = ""
+	}
 	for _, f := range files {
 		base := strings.TrimSuffix(filepath.Base(f), ".go")
 		dst := filepath.Join(repoDir, pkg, "zz_verif_"+base+"_test.go")
